@@ -61,6 +61,7 @@ fn walk_strategy() -> impl Strategy<Value = WalkCase> {
 fn test_walk(case: &WalkCase, st: &mut Stats, counting: bool) -> CaseResult {
     let mut trace = vec![];
     let mut errs = 0usize;
+    let mut long_errs = 0usize;
     let r = guarded(|| -> Result<(), String> {
         let mut pool = case.pool.clone();
         if case.cfg.contains_overlay() {
@@ -112,6 +113,32 @@ fn test_walk(case: &WalkCase, st: &mut Stats, counting: bool) -> CaseResult {
                 }
             }
         }
+        // components longer than the host's 255-byte limit: whatever a backend answers (the
+        // in-memory one accepts them, the OS refuses them), an error names the caller's path
+        let parent = if case.how % 2 == 0 { String::new() } else { dirs[idx(case.victim.rotate_left(3), dirs.len())].clone() };
+        let parent = if at(&built.root, &parent).ok().and_then(|p| p.is_dir().ok()) == Some(true) { parent } else { String::new() };
+        let long = if case.how % 4 < 2 { crate::gen::long_name(256 + case.how as usize) } else { crate::gen::long_mb_name(300 + case.how as usize, case.how as usize % 4) };
+        let p1 = format!("{}/{}", parent, long);
+        let p2 = format!("{}/x", p1);
+        let short = format!("{}/zshortz", parent);
+        let data = std::sync::Arc::new(b"x".to_vec());
+        let probes = [
+            Op::Exists(p1.clone()), Op::IsFile(p1.clone()), Op::IsDir(p1.clone()), Op::Metadata(p1.clone()), Op::Read(p1.clone()), Op::ReadDir(p1.clone()),
+            Op::ReadToString(p1.clone()), Op::WalkDir(p1.clone()), Op::RemoveFile(p1.clone()), Op::RemoveDir(p1.clone()), Op::SetTime(p1.clone(), TimeField::Modified, 1_000_000, 0),
+            Op::Exists(p2.clone()), Op::IsDir(p2.clone()), Op::Metadata(p2.clone()), Op::CreateDir(p2.clone()), Op::CreateFile(p2.clone(), data.clone()), Op::Append(p2.clone(), data.clone()),
+            Op::MoveFile(p1.clone(), short.clone()), Op::CopyDir(p1.clone(), short.clone()), Op::CopyFile(p2.clone(), short.clone()),
+            Op::CreateDirAll(p2.clone()), Op::CreateFile(p1.clone(), data.clone()), Op::CreateDir(p1.clone()), Op::RemoveDirAll(p1.clone()),
+        ];
+        for op in &probes {
+            match exec(&built.root, op) {
+                Outcome::Panic(m) => return Err(format!("{} (component of {} bytes) panicked: {}", op.kind(), long.len(), m)),
+                Outcome::Err(info) => {
+                    long_errs += 1;
+                    crate::hist::check_error(op, &info).map_err(|m| format!("over-long component of {} bytes below '{}': {}", long.len(), parent, m))?;
+                }
+                Outcome::Ok(_) => {}
+            }
+        }
         Ok(())
     });
     let mk = |m: String| Failure {
@@ -125,7 +152,8 @@ fn test_walk(case: &WalkCase, st: &mut Stats, counting: bool) -> CaseResult {
             if counting {
                 st.label("walk_cases");
                 st.label_n("walk_error_items_checked", errs as u64);
-                st.label_n("errors_checked", errs as u64);
+                st.label_n("errors_checked", (errs + long_errs) as u64);
+                st.label_n("errors_of_calls_on_components_longer_than_255_bytes", long_errs as u64);
                 if errs > 0 {
                     st.nontrivial.insert(crate::util::fnv_str(&format!("{:?}", case)));
                     st.label(&format!("errtriple:walk_item|{}|any", case.cfg.top()));
